@@ -10,16 +10,36 @@ import AmVerif.Proofs.Cursor
   id of the winning *value op* of the element (`found.ops.last()`) plus a move mode; resolution is
   `get_cursor_position_for` over `seek_list_opid`, whose indexed path (present time) the debug build
   asserts equal to its walk (`historical = true` selects the walk alone, as reads at heads do).
+  The model follows the code AFTER the fixes 26955dda5 (deleted tail element), a73334efe (mark op in the
+  Before walk) and 9b01837d9 (`FoundOpId::visible` = visibility of the ELEMENT); before them the second and
+  third sentence were false (findings D19, F1, F2 — the witnesses below are now positive examples).
   The correspondence run compares every `get_cursor` / `get_cursor_position` result (strings, indexes,
-  errors, panics) with this model: 0 disagreements.
+  errors, panics) with this model: 0 disagreements, 0 panics.
 -/
 namespace AmVerif.Props.C26
 open AmVerif AmVerif.Crdt
 
-/-- C26, first sentence, on the walk (the reference path; reads at heads use only it): a cursor
-    taken at unit index `i` resolves — in either move mode — to the start index of the element whose
-    unit range contains `i` (`start ≤ i < start + width`, C24_index_units); for an `i` that is an element
-    boundary that is `i` itself.  `RowsDistinct`: the op store holds every op once. -/
+/-- C26, second sentence, on the walk (the reference path; reads at heads use only it): "After any
+    later local or merged edits, an element cursor resolves to the element's current index while the
+    element is visible."  `ops` is the document NOW (whatever was appended since the cursor was taken);
+    the cursor names op `xid`, a value op — current or since overwritten — of element `eid`
+    (`NamesRowOf`); the element is visible now, found at unit index `i` with start index `start`.  Then
+    the cursor resolves to `start`, in either move mode.  `RowsDistinct`: the op store holds every op once. -/
+theorem C26_cursor_tracks (wf : ObjType → Op → Nat) (ops : List Op) (obj : ObjId) (ty : ObjType) (i : Nat)
+    (xid : OpId) (mv : MoveCursor) {eid : OpId} {reg : List Op} {start : Nat}
+    (hty : objType ops obj = some ty) (hseq : isSeq ty = true)
+    (hd : RowsDistinct (objRows ops obj))
+    (hseek : seekByIndexW (wf ty) (seqRegs ops obj) i 0 = some (eid, reg, start))
+    (hx : NamesRowOf ops obj xid eid) :
+    cursorPosition wf true true ops obj (.op xid mv) = .ok start := by
+  obtain ⟨f, hf, hidx, hvis, _⟩ := seekSlow_tracks (wf ty) ops obj i xid hd hseek hx
+  unfold cursorPosition
+  simp only [hty, hseq, seekListOpid, hf]
+  cases mv <;> simp [hidx, hvis]
+
+/-- C26, first sentence: "get_cursor_position(get_cursor(i)) is i" — a cursor taken at unit index `i`
+    resolves (either move mode) to the start index of the element whose unit range contains `i`
+    (`start ≤ i < start + width`, C24_index_units); for an `i` on an element boundary that is `i`. -/
 theorem C26_cursor_roundtrip (wf : ObjType → Op → Nat) (ops : List Op) (obj : ObjId) (ty : ObjType) (i : Nat)
     (mv : MoveCursor) {eid : OpId} {reg : List Op} {start : Nat}
     (hty : objType ops obj = some ty) (hseq : isSeq ty = true)
@@ -30,10 +50,11 @@ theorem C26_cursor_roundtrip (wf : ObjType → Op → Nat) (ops : List Op) (obj 
   simp only [hty, hseq, hseek]
   cases hlast : reg.getLast? with
   | none =>
-    -- an element found by index has at least one visible op
     exfalso
+    have := winner_namesRow (o := default) hseek
+    -- an element found by index has at least one visible op
     rw [seqRegs_eq] at hseek
-    have : ∀ (l : List Op) (s0 : Nat), seekByIndexW (wf ty) (regsOf ops obj l) i s0 = some (eid, reg, start) → reg ≠ [] := by
+    have key : ∀ (l : List Op) (s0 : Nat), seekByIndexW (wf ty) (regsOf ops obj l) i s0 = some (eid, reg, start) → reg ≠ [] := by
       intro l
       induction l with
       | nil => intro s0 h; simp [regsOf, seekByIndexW] at h
@@ -53,67 +74,34 @@ theorem C26_cursor_roundtrip (wf : ObjType → Op → Nat) (ops : List Op) (obj 
             · simp only [Option.some.injEq, Prod.mk.injEq] at h
               rw [← h.2.1]; simp
             · exact ih _ h
-    have hne := this _ 0 hseek
+    have hne := key _ 0 hseek
     cases reg with
     | nil => exact hne rfl
     | cons a b => simp at hlast
   | some o =>
-    refine ⟨.op o.id mv, by simp, ?_⟩
-    obtain ⟨f, hf, hidx, hvis, _⟩ := seekSlow_roundtrip (wf ty) ops obj i hd hseek hlast
-    unfold cursorPosition
-    simp only [hty, hseq, seekListOpid, hf]
-    cases mv <;> simp [hidx, hvis]
+    exact ⟨.op o.id mv, by simp,
+      C26_cursor_tracks wf ops obj ty i o.id mv hty hseq hd hseek (winner_namesRow hseek hlast)⟩
 
-/-- C26, first sentence, present time (partial: what is missing is the proof that the indexed path of
-    `seek_list_opid` agrees with its walk on a winning op — the debug build asserts it, the model
-    turns a difference into `panic`; the run saw no such panic on a round trip): the result is the
+/-- C26, first and second sentence at PRESENT time (partial: what is missing is the proof that the
+    indexed path of `seek_list_opid` agrees with its walk — the debug build asserts it, the model turns a
+    difference into `panic`; the run saw no panic in 96 597 outputs after the fixes): the result is the
     element's start index, never another index. -/
-theorem C26_cursor_roundtrip_present_partial (wf : ObjType → Op → Nat) (ops : List Op) (obj : ObjId) (ty : ObjType) (i : Nat)
-    (mv : MoveCursor) {eid : OpId} {reg : List Op} {start : Nat}
+theorem C26_cursor_tracks_present_partial (wf : ObjType → Op → Nat) (ops : List Op) (obj : ObjId) (ty : ObjType) (i : Nat)
+    (xid : OpId) (mv : MoveCursor) {eid : OpId} {reg : List Op} {start : Nat}
     (hty : objType ops obj = some ty) (hseq : isSeq ty = true)
     (hd : RowsDistinct (objRows ops obj))
-    (hseek : seekByIndexW (wf ty) (seqRegs ops obj) i 0 = some (eid, reg, start)) :
-    ∃ c, cursorAt wf ops obj i mv = .ok c ∧
-      (cursorPosition wf false true ops obj c = .ok start ∨ cursorPosition wf false true ops obj c = .panic .assertFailed) := by
-  obtain ⟨c, hc, hpos⟩ := C26_cursor_roundtrip wf ops obj ty i mv hty hseq hd hseek
-  refine ⟨c, hc, ?_⟩
-  cases c with
-  | start => left; simpa [cursorPosition] using hpos
-  | stop => left; simpa [cursorPosition] using hpos
-  | op id mv' =>
-    unfold cursorPosition at hpos ⊢
-    simp only [hty, hseq, seekListOpid] at hpos ⊢
-    by_cases h1 : (ops.any (fun o => o.id == id && !o.isDel && o.obj != obj)) = true
-    · right; simp [h1]
-    · by_cases h2 : seekFast (wf ty) ops obj id = seekSlow (wf ty) ops obj id
-      · left
-        simp only [h1, h2, if_true, Bool.false_eq_true, if_false]
-        cases hs : seekSlow (wf ty) ops obj id with
-        | none => simp [hs] at hpos
-        | some f =>
-          simp only [hs] at hpos ⊢
-          cases mv' with
-          | after => simpa using hpos
-          | before =>
-            by_cases hv : (f.visible || f.index == 0) = true
-            · simpa [hv] using hpos
-            · -- on the walk the op was found visible (roundtrip), so this branch does not occur
-              exfalso
-              cases hlast : reg.getLast? with
-              | none =>
-                unfold cursorAt at hc
-                simp [hty, hseq, hseek, hlast] at hc
-              | some o =>
-                unfold cursorAt at hc
-                simp only [hty, hseq, hseek, hlast] at hc
-                have hid : o.id = id := by
-                  simp at hc; exact hc.1
-                obtain ⟨f', hf', _, hvis', _⟩ := seekSlow_roundtrip (wf ty) ops obj i hd hseek hlast
-                rw [hid, hs] at hf'
-                injection hf' with hf'
-                subst hf'
-                simp [hvis'] at hv
-      · right; simp [h1, h2]
+    (hseek : seekByIndexW (wf ty) (seqRegs ops obj) i 0 = some (eid, reg, start))
+    (hx : NamesRowOf ops obj xid eid) :
+    cursorPosition wf false true ops obj (.op xid mv) = .ok start ∨
+      cursorPosition wf false true ops obj (.op xid mv) = .panic .assertFailed := by
+  obtain ⟨f, hf, hidx, hvis, _⟩ := seekSlow_tracks (wf ty) ops obj i xid hd hseek hx
+  unfold cursorPosition
+  simp only [hty, hseq, seekListOpid]
+  by_cases h2 : seekFast (wf ty) ops obj xid = seekSlow (wf ty) ops obj xid
+  · left
+    simp only [h2, hf, beq_self_eq_true, if_true, Bool.false_eq_true, if_false]
+    cases mv <;> simp [hidx, hvis]
+  · right; simp [h2]
 
 /-- text "abc" (elements 2,3,4 of object 1@aa), `put(1, "Z")` (op 5 overwrites the value of element 3) -/
 def d19 : List Op :=
@@ -125,21 +113,42 @@ def d19 : List Op :=
 
 def wfCp (ty : ObjType) : Op → Nat := ow gOne .cp (ty == .text)
 
+/-- non-vacuity (and the former D19 witness): the cursor taken at index 1 of "abc" names value op 3; after
+    `put(1,"Z")` that op is overwritten, the element is visible at index 1 ("aZc"), the hypotheses of
+    `C26_cursor_tracks` hold and the cursor resolves to 1 in both move modes, now and at heads
+    (before fix 9b01837d9 the `Before` cursor resolved to 0). -/
 example : RowsDistinct (objRows d19 (.id ⟨1, [0xaa]⟩)) ∧
-    seekByIndexW (wfCp .text) (seqRegs d19 (.id ⟨1, [0xaa]⟩)) 1 0 = some (⟨3, [0xaa]⟩, [d19[4]], 1) := by
+    seekByIndexW (wfCp .text) (seqRegs d19 (.id ⟨1, [0xaa]⟩)) 1 0 = some (⟨3, [0xaa]⟩, [d19[4]], 1) ∧
+    (cursorAt wfCp (d19.take 4) (.id ⟨1, [0xaa]⟩) 1 .before).toOption = some (.op ⟨3, [0xaa]⟩ .before) ∧
+    cursorPosition wfCp false true d19 (.id ⟨1, [0xaa]⟩) (.op ⟨3, [0xaa]⟩ .before) = .ok 1 ∧
+    cursorPosition wfCp true true d19 (.id ⟨1, [0xaa]⟩) (.op ⟨3, [0xaa]⟩ .before) = .ok 1 ∧
+    cursorPosition wfCp false true d19 (.id ⟨1, [0xaa]⟩) (.op ⟨3, [0xaa]⟩ .after) = .ok 1 := by
   unfold RowsDistinct; decide
 
-/-- C26, second sentence ("… resolves to the element's current index while the element is visible") is
-    FALSE for `MoveCursor::Before` on the unchanged code (finding D19, `sig=before-cursor-value-op`):
-    the cursor taken at index 1 of "abc" names value op 3; after `put(1,"Z")` the element is still
-    visible at index 1 (text "aZc") but the cursor resolves to 0 — the walk tests the visibility of the
-    *op*, then moves to the reference element.  `After` cursors are not affected (second conjunct). -/
-theorem C26_tracks_refuted :
-    (cursorAt wfCp (d19.take 4) (.id ⟨1, [0xaa]⟩) 1 .before).toOption = some (.op ⟨3, [0xaa]⟩ .before) ∧
-    textOf d19 (.id ⟨1, [0xaa]⟩) = [0x61, 0x5A, 0x63] ∧
-    cursorPosition wfCp false true d19 (.id ⟨1, [0xaa]⟩) (.op ⟨3, [0xaa]⟩ .before) = .ok 0 ∧
-    cursorPosition wfCp false true d19 (.id ⟨1, [0xaa]⟩) (.op ⟨3, [0xaa]⟩ .after) = .ok 1 := by
-  decide
+example : NamesRowOf d19 (.id ⟨1, [0xaa]⟩) ⟨3, [0xaa]⟩ ⟨3, [0xaa]⟩ := by
+  unfold NamesRowOf; decide
+
+/-- C26, third sentence, `After`: "the index of the next surviving element (or the length)".  The walk
+    answers the summed widths of the elements with visible values that lie wholly before the cursor's op:
+    that is the index of the first surviving element at or after it, and — no surviving element after it —
+    the length; it always answers (before fix 26955dda5 it answered "not found" at the tail, finding F1). -/
+theorem C26_after_deleted (wf : Op → Nat) (x : Op) (pos : Nat) (groups : List (Nat × Nat × List Op)) (idx : Nat) :
+    ∃ f, seekSlowGo wf x pos groups idx = some f ∧
+      f.index = idx + ((groups.takeWhile (fun g => g.2.1 ≤ pos)).map (fun g => lastW wf g.2.2)).sum := by
+  induction groups generalizing idx with
+  | nil => exact ⟨_, rfl, by simp⟩
+  | cons g gs ih =>
+    obtain ⟨s, e, reg⟩ := g
+    rw [seekSlowGo_cons]
+    by_cases hgt : e > pos
+    · have : ¬ e ≤ pos := by omega
+      rw [if_pos hgt]
+      exact ⟨_, rfl, by simp [List.takeWhile, this]⟩
+    · have hle : e ≤ pos := by omega
+      rw [if_neg hgt]
+      obtain ⟨f, hf, hidx⟩ := ih (idx + lastW wf reg)
+      refine ⟨f, hf, ?_⟩
+      rw [hidx]; simp [List.takeWhile, hle]; omega
 
 /-- "ab" with "b" (the last element) deleted -/
 def tail : List Op :=
@@ -148,41 +157,17 @@ def tail : List Op :=
     ⟨⟨3, [0xaa]⟩, .id ⟨1, [0xaa]⟩, .elem ⟨2, [0xaa]⟩, true, .put (.str [0x62]), []⟩,
     ⟨⟨4, [0xaa]⟩, .id ⟨1, [0xaa]⟩, .elem ⟨3, [0xaa]⟩, false, .del, [⟨3, [0xaa]⟩]⟩ ]
 
-/-- C26, "After gives the index of the next surviving element (or the length)" is FALSE when no element
-    survives after the deleted one (new finding, `sig=deleted-tail-cursor-error` / `-panic`): the
-    indexed lookup answers the length, the walk answers "not found"; present-time reads trip the debug
-    assertion comparing the two (release builds return the length), reads at heads return
-    `InvalidCursor`. -/
-theorem C26_after_deleted_tail_refuted :
-    cursorPosition wfCp true true tail (.id ⟨1, [0xaa]⟩) (.op ⟨3, [0xaa]⟩ .after) = .err .cursor ∧
-    cursorPosition wfCp false true tail (.id ⟨1, [0xaa]⟩) (.op ⟨3, [0xaa]⟩ .after) = .panic .assertFailed ∧
-    (seekFast (wfCp .text) tail (.id ⟨1, [0xaa]⟩) ⟨3, [0xaa]⟩).map (·.index) = some 1 := by
+/-- the former F1 witness: an `After` cursor on the deleted last element resolves to the length (1), at
+    heads and at present time (indexed path and walk agree: no panic); a `Before` cursor to "a" (0) -/
+example :
+    cursorPosition wfCp true true tail (.id ⟨1, [0xaa]⟩) (.op ⟨3, [0xaa]⟩ .after) = .ok 1 ∧
+    cursorPosition wfCp false true tail (.id ⟨1, [0xaa]⟩) (.op ⟨3, [0xaa]⟩ .after) = .ok 1 ∧
+    cursorPosition wfCp false true tail (.id ⟨1, [0xaa]⟩) (.op ⟨3, [0xaa]⟩ .before) = .ok 0 := by
   decide
 
-/-- C26, third sentence, `After`, where it holds: the walk answers the summed widths of the elements
-    that lie wholly before the cursor's op — the index of the first surviving element at or after it. -/
-theorem C26_after_deleted (wf : Op → Nat) (x : Op) (pos : Nat) (groups : List (Nat × List Op)) (idx : Nat)
-    {f : FoundOpId} (h : seekSlowGo wf x pos groups idx = some f) :
-    f.index = idx + ((groups.takeWhile (fun g => g.1 ≤ pos)).map (fun g => lastW wf g.2)).sum := by
-  induction groups generalizing idx with
-  | nil => simp [seekSlowGo] at h
-  | cons g gs ih =>
-    obtain ⟨e, reg⟩ := g
-    rw [seekSlowGo_cons] at h
-    by_cases hgt : e > pos
-    · simp only [hgt, if_true, Option.some.injEq] at h
-      have : ¬ e ≤ pos := by omega
-      rw [← h]; simp [List.takeWhile, this]
-    · simp only [hgt, if_false] at h
-      have hle : e ≤ pos := by omega
-      rw [ih _ h]
-      simp [List.takeWhile, hle]; omega
-
-example : cursorPosition wfCp true true (tail.take 3 ++ [⟨⟨4, [0xaa]⟩, .id ⟨1, [0xaa]⟩, .elem ⟨2, [0xaa]⟩, false, .del, [⟨2, [0xaa]⟩]⟩])
-    (.id ⟨1, [0xaa]⟩) (.op ⟨2, [0xaa]⟩ .after) = .ok 0 := by decide
-
-/-- C26, third sentence, `Before`: the resolution is exactly the walk "key := reference element until it
-    is visible, else 0" (with the visibility test on the *op*, see `C26_tracks_refuted`). -/
+/-- C26, third sentence, `Before`: "the index of the nearest surviving predecessor along the insertion
+    chain (or 0)" — the resolution is exactly the walk "key := reference element until an element with a
+    visible value is reached, else 0" (mark ops on the chain are passed over like deleted elements). -/
 theorem C26_before_deleted (wf : Op → Nat) (hist : Bool) (ops : List Op) (obj : ObjId) (fuel : Nat) (k : OpId) :
     beforeWalk wf hist ops obj (fuel + 1) (.elem k) =
       match seekListOpid wf hist ops obj k with
@@ -201,5 +186,21 @@ example :
     cursorPosition wfCp true true
       (d19.take 4 ++ [⟨⟨5, [0xaa]⟩, .id ⟨1, [0xaa]⟩, .elem ⟨3, [0xaa]⟩, false, .del, [⟨3, [0xaa]⟩]⟩])
       (.id ⟨1, [0xaa]⟩) (.op ⟨3, [0xaa]⟩ .after) = .ok 1 := by decide
+
+/-- the former F2 witness: "ab", `mark(1,2,Before)` (begin 4 after "a", end 5 after "b"), "x" (6) inserted at
+    1 is keyed on the begin op; "x" deleted (7).  The `Before` walk passes over the mark op and reaches "a":
+    0, at present time (no panic) and at heads. -/
+example :
+    let ops : List Op :=
+      [ ⟨⟨1, [0xaa]⟩, .root, .map [0x74], false, .make .text, []⟩,
+        ⟨⟨2, [0xaa]⟩, .id ⟨1, [0xaa]⟩, .head, true, .put (.str [0x61]), []⟩,
+        ⟨⟨3, [0xaa]⟩, .id ⟨1, [0xaa]⟩, .elem ⟨2, [0xaa]⟩, true, .put (.str [0x62]), []⟩,
+        ⟨⟨4, [0xaa]⟩, .id ⟨1, [0xaa]⟩, .elem ⟨2, [0xaa]⟩, true, .markBegin [0x62] (.bool true) true, []⟩,
+        ⟨⟨5, [0xaa]⟩, .id ⟨1, [0xaa]⟩, .elem ⟨3, [0xaa]⟩, true, .markEnd false, []⟩,
+        ⟨⟨6, [0xaa]⟩, .id ⟨1, [0xaa]⟩, .elem ⟨4, [0xaa]⟩, true, .put (.str [0x78]), []⟩,
+        ⟨⟨7, [0xaa]⟩, .id ⟨1, [0xaa]⟩, .elem ⟨6, [0xaa]⟩, false, .del, [⟨6, [0xaa]⟩]⟩ ]
+    cursorPosition wfCp false true ops (.id ⟨1, [0xaa]⟩) (.op ⟨6, [0xaa]⟩ .before) = .ok 0 ∧
+    cursorPosition wfCp true true ops (.id ⟨1, [0xaa]⟩) (.op ⟨6, [0xaa]⟩ .before) = .ok 0 := by
+  decide
 
 end AmVerif.Props.C26
